@@ -837,3 +837,4 @@ end C19
 #print axioms C19.rpc_variant_roundtrip_any_port_position
 #print axioms C19.reader_over_failing_transport
 #print axioms C19.extracted_handle_message_branches
+#print axioms C19.processMessage_undecodable
